@@ -232,3 +232,29 @@ m('c12-inverse-mirror-wrong-sign', ['C12'], 'mirror-table', [
 m('c12-inverse-ignores-ctx-mode', ['C12'], 'PROV-CTX', [
   ('src/arithmetic/inverse.rs', "running_result.with_precision_round(ctx.precision(), ctx.rounding_mode())", "running_result.with_precision_round(ctx.precision(), RoundingMode::HalfUp)")],
   'inverse_with_context ignores the context mode')
+# ---- C17
+m('c17-option-adapter-no-limit', ['C17'], 'SIBLING-LIMIT', [
+  ('src/impl_serde.rs', """                                     .transpose()?
+                                     .map(|n: BigDecimal| {
+                                         // enforce the same scale limit as `arbitrary_precision`
+                                         if n.scale.checked_abs().map_or(true, |s| s > SERDE_SCALE_LIMIT) && SERDE_SCALE_LIMIT > 0 {
+                                             let msg = format!("Calculated exponent '{}' out of bounds", -(n.scale as i128));
+                                             Err(serde::de::Error::custom(msg))
+                                         } else {
+                                             Ok(n)
+                                         }
+                                     })
+                                     .transpose()""", """                                     .transpose()""")],
+  'the original missing scale limit in json_num_option (fixed in 828d656)')
+m('c17-adapter-abs-overflow', ['C17'], 'R-PANIC', [
+  ('src/impl_serde.rs', """        // checked_abs: i64::MIN has no absolute value and is certainly out of bounds
+        if n.scale.checked_abs().map_or(true, |s| s > SERDE_SCALE_LIMIT) && SERDE_SCALE_LIMIT > 0 {
+            let msg = format!("Calculated exponent '{}' out of bounds", -(n.scale as i128));""", """        if n.scale.abs() > SERDE_SCALE_LIMIT && SERDE_SCALE_LIMIT > 0 {
+            let msg = format!("Calculated exponent '{}' out of bounds", -n.scale);""")],
+  'the original abs()/neg overflow on scale i64::MIN (fixed in 0fabebf)')
+m('c17-visit-str-through-f64', ['C17'], 'R-NOCALL', [
+  ('src/impl_serde.rs', "BigDecimal::from_str(value).map_err(|err| E::custom(format!(\"{}\", err)))\n    }\n\n    fn visit_u64", "value.parse::<f64>().ok().and_then(|f| BigDecimal::try_from(f).ok()).or_else(|| BigDecimal::from_str(value).ok()).ok_or_else(|| E::custom(\"bad\"))\n    }\n\n    fn visit_u64")],
+  'numeric strings take a detour through f64 when they parse as one')
+m('c17-serialize-via-f64', ['C17'], 'R-FWD', [
+  ('src/impl_serde.rs', "        serializer.collect_str(&self)", "        match num_traits::ToPrimitive::to_f64(self) { Some(f) if self.digits() < 15 => serializer.serialize_f64(f), _ => serializer.collect_str(&self) }")],
+  'short decimals serialised as binary floats')
